@@ -41,6 +41,8 @@ pub struct WorldCfg {
     /// client -> server channels
     pub c2s: Vec<Chan>,
     pub n_clients: usize,
+    /// which client ids the connections get (see `client_id`): 0 = 100+i, 1 = u64::MAX-i, 2 = a mix of extreme values
+    pub id_scheme: u8,
 }
 
 fn chan_cfg(c: &Chan) -> ChannelConfig {
@@ -81,8 +83,18 @@ impl Dir {
     }
 }
 
+thread_local! {
+    /// Client-id scheme of the case running on this thread (set by World::new; a case runs on one thread from start to end).
+    static ID_SCHEME: std::cell::Cell<u8> = const { std::cell::Cell::new(0) };
+}
+
+/// Client id of the i-th connection of the case: ids are application-chosen u64 values, so extreme ones are legal.
 pub fn client_id(i: usize) -> u64 {
-    100 + i as u64
+    match ID_SCHEME.with(|c| c.get()) {
+        1 => u64::MAX - i as u64,
+        2 => [0u64, u64::MAX, 1, 1 << 63, u64::MAX - 1, 1 << 32, 7, (1 << 63) - 1][i % 8] ^ ((i / 8) as u64 * 0x10),
+        _ => 100 + i as u64,
+    }
 }
 
 #[derive(Clone, Debug)]
@@ -286,6 +298,7 @@ pub fn is_mem_reason(r: &DisconnectReason) -> bool {
 
 impl World {
     pub fn new(cfg: WorldCfg, or: Oracles) -> Self {
+        ID_SCHEME.with(|c| c.set(cfg.id_scheme));
         let cc = cfg.connection_config();
         let mut server = RenetServer::new(cc.clone());
         let mut clients = vec![];
